@@ -88,6 +88,11 @@ impl CgCtx {
         }
     }
 
+    #[cfg(feature = "verif_hooks")]
+    pub fn inlined_states(&self) -> &[StateIdx] {
+        &self.inlined_states
+    }
+
     pub fn n_inlined_states(&self) -> usize {
         self.inlined_states.len()
     }
